@@ -124,6 +124,9 @@ func writeBuf(
 	w := slip.StandardOutput.(io.Writer)
 	ss, _ := slip.StandardOutput.(slip.Stream)
 
+	if len(args)%2 == 0 {
+		slip.ErrorPanic(s, depth, "%s missing an argument", args[len(args)-1])
+	}
 	for i := 1; i < len(args)-1; i += 2 {
 		sym, ok := args[i].(slip.Symbol)
 		if !ok {
